@@ -255,16 +255,24 @@ func validateServiceEndpoint(serviceEndpoint interface{}) error {
 		return validateServiceEndpointObjects(objs)
 	}
 
+	// an endpoint is a URI, a set of endpoints or an object (map) with endpoint properties
+	if _, ok := serviceEndpoint.(map[string]interface{}); !ok {
+		return fmt.Errorf("service endpoint '%v' is neither a URI, a list nor an object", serviceEndpoint)
+	}
+
 	return nil
 }
 
 func validateServiceEndpointObjects(objs []interface{}) error {
 	for _, obj := range objs {
-		uri, ok := obj.(string)
-		if ok {
-			if err := validateURI(uri); err != nil {
+		switch entry := obj.(type) {
+		case string:
+			if err := validateURI(entry); err != nil {
 				return err
 			}
+		case map[string]interface{}:
+		default:
+			return fmt.Errorf("service endpoint entry '%v' is neither a URI nor an object", obj)
 		}
 	}
 
